@@ -163,6 +163,58 @@ int main(int argc, char ** argv) {
             }
         }
     }
+#if USE_DEVICE_DEPENDENT_ERROR_INFORMATION
+    /* (c) histories: several queued errors whose texts share the storage (static heap: wrap-around, exact fit at the
+     *     heap end, reuse of the heap start): every sequence of <= 6 operations over {push a text of 3, 7, 11, 15, 19
+     *     characters with a double quote inside, SYST:ERR?}; every response must be well formed and carry exactly the
+     *     text of ITS error (or, in the static-heap build, no text when the heap was full) */
+    {
+        static const int plen[5] = {3, 7, 11, 15, 19};
+        int K = mc_thorough ? 7 : 6, k, st[8], hs, i2;
+        for (hs = 0; hs < 3; hs++) for (k = 2; k <= K; k++) {
+            for (i2 = 0; i2 < k; i2++) st[i2] = 0;
+            for (;;) {
+                if (MC_CASE()) {
+                    char texts[8][24]; int tl[8], head = 0, tail = 0, n;
+                    mc_case_tag = "history"; mc_case_i[0] = hs; mc_case_i[1] = k; for (i2 = 0; i2 < k && i2 < 4; i2++) mc_case_i[2 + i2] = st[i2];
+                    tc_reinit(&T, cmds);
+#if !USE_MEMORY_ALLOCATION_FREE
+                    SCPI_InitHeap(&T.ctx, T.heap, (size_t) (hs == 0 ? 24 : hs == 1 ? 32 : 40));
+#endif
+                    for (n = 0; n < k; n++) {
+                        if (st[n] < 5) {
+                            int l = plen[st[n]], j;
+                            if (tail - head >= 4) continue;          /* queue capacity 4: no overflow here */
+                            for (j = 0; j < l; j++) texts[tail & 7][j] = (char) ('A' + (tail % 20)); texts[tail & 7][1] = '"'; texts[tail & 7][l] = 0; tl[tail & 7] = l;
+                            SCPI_ErrorPushEx(&T.ctx, -222, texts[tail & 7], (size_t) l);
+                            tail++;
+                        } else {
+                            const char * why;
+                            tr_reset();
+                            SCPI_Input(&T.ctx, "SYST:ERR?\n", 10);
+                            n_cases++;
+                            if (head == tail) why = check_response(0, "", 0, 0);
+                            else {
+                                why = check_response(-222, texts[head & 7], (size_t) tl[head & 7], 1);
+#if !USE_MEMORY_ALLOCATION_FREE
+                                if (why) { if (!check_response(-222, "", 0, 0)) why = NULL; }       /* heap full at push time: no text */
+#endif
+                                head++;
+                            }
+                            if (why) { char sig[96]; snprintf(sig, sizeof sig, "c18/history/%s", why); mc_viol(sig, "heap variant %d, operation %d of history: response [%s]", hs, n, mc_e(OUT, OUTN)); break; }
+                            n_nontrivial++;
+                        }
+                    }
+                }
+                for (i2 = k - 1; i2 >= 0; i2--) { if (++st[i2] < 6) break; st[i2] = 0; }
+                if (i2 < 0) break;
+            }
+#if USE_MEMORY_ALLOCATION_FREE
+            if (k == K) hs = 3;
+#endif
+        }
+    }
+#endif
     if (mc_shard == 0) {
         mc_sample("code -113 text of 238 chars with a double quote at text index 237 (the 255th content character): the quote must be dropped, not half-emitted");
         mc_sample("every code -32768..32767 without text");
